@@ -203,6 +203,44 @@ Proof.
   - intros e d e' x [].
 Qed.
 
+(* ---------- which CAs are trusted: create_proxy_server_context ---------- *)
+
+(* r is a CONFIGURED trusted certificate: in the CA file or the CA directory if either option is set;
+   in the bundled default file only when neither is *)
+Definition configured_root (tc : trust_cfg) (r : cert) : Prop :=
+  match tc_file tc, tc_dir tc with
+  | None, None => In r (tc_default tc)
+  | f, d => In r (opt_list f) \/ In r (opt_list d)
+  end.
+
+Lemma loaded_trust_configured tc r : In r (loaded_trust tc) <-> configured_root tc r.
+Proof.
+  unfold loaded_trust, configured_root.
+  destruct (tc_file tc), (tc_dir tc); simpl; rewrite ?in_app_iff; simpl; tauto.
+Qed.
+
+(* the default bundle plays no role as soon as a CA file or a CA directory is configured *)
+Lemma default_bundle_ignored f d def1 def2 :
+  (f <> None \/ d <> None) -> loaded_trust (mkTc f d def1) = loaded_trust (mkTc f d def2).
+Proof. unfold loaded_trust; simpl. destruct f, d; intros [H|H]; try reflexivity; contradiction. Qed.
+
+Theorem verified_by_configured_ca i tc chain now eng seg hs_step send_app recv_app got_shutdown start_conn
+        cst child_step c b es :
+  openssl_verifies i (loaded_trust tc) chain now eng seg hs_step send_app recv_app start_conn ->
+  ssl_insecure i = false ->
+  usable eng seg hs_step send_app recv_app got_shutdown start_conn cst child_step c b es ->
+  exists t leaf extra n r,
+    target_of i t /\ chain = leaf :: extra
+    /\ valid_path (loaded_trust tc) extra now n leaf 0%N /\ time_ok now leaf = true /\ name_ok leaf t = true
+    /\ configured_root tc r /\ self_issued r = true /\ time_ok now r = true.
+Proof.
+  intros Hc Hi U.
+  destruct (verified_unless_disabled _ _ _ _ _ _ _ _ _ _ _ _ _ _ _ _ Hc Hi U)
+    as [t [leaf [extra [n [Tg [Ch [Vp [Tm Nm]]]]]]]].
+  destruct (valid_path_ends_in_trusted_root _ _ _ _ _ _ Vp) as [r [Hin [Ss Tr]]].
+  exists t, leaf, extra, n, r. repeat split; auto. apply loaded_trust_configured; exact Hin.
+Qed.
+
 (* ---------- the contract is satisfiable: the specification engine of Corr/C15.v ---------- *)
 
 Example spec_engine_contract (a : bool) (conn : option phase) :
